@@ -34,6 +34,7 @@ func init() {
 	core.Register(&core.Info{
 		ID: "C19", Level: "exploration",
 		Rule: "case = one path text evaluated on 2-4 messages of its root type, or one byte rendering. Families: " +
+			"bool-key-spelling: a Boolean-keyed map indexed with each of the twelve spellings strconv.ParseBool knows (36 texts); only true / false are keys, an accepted other identifier is a violation; " +
 			"(grammar) a structured path drawn by walking a random message (descriptor-driven: testprotopath.Test with all six map key kinds, Test.Nested, VMGoldenMeasurement, VMLaunchEndorsement; nesting <= 5, up to 8 field steps; indices of present and of missing elements) " +
 			"and spelled at random (implicit/explicit root, decimal/hex/octal and negative integers, both quote styles, simple, 1-3 digit octal incl. leading zeros, 1-2 digit \\x/\\X in either case, \\u, \\U escapes, escapes followed by literal digits, raw UTF-8; string-keyed maps hold keys together with what a short-cutting scanner would read instead), evaluated on the message it was drawn from, a fresh random message, the empty message and a copy with the addressed element deleted; " +
 			"(neighbour) the same with one type-breaking edit of the structure (index dropped/added, literal of the wrong kind or out of the key range, map-entry field, unknown/foreign field, negative/huge index); " +
